@@ -36,7 +36,7 @@ def tasks(tier):
         for ch in scopes.chunk_multisets(range(1, B + 4), 1, N, 800):
             ts.append((f"B{B}", ch, B, ("list", "dict_str")))
         for ch in scopes.chunk_multisets(range(1, B + 4), 1, min(N, 5), 800):
-            ts.append((f"B{B}-named", ch, B, ("dict_int", "names", "array")))
+            ts.append((f"B{B}-named", ch, B, ("dict_int", "dict_idx", "names", "names_rep", "array", "array_names")))
     # many items over tiny alphabets, magnitudes around 2**32 with letters next to the class thresholds, large planted covers
     for alpha, lo, hi, B in LONG:
         for ch in scopes.chunk_multisets(alpha, lo, hi if tier != "quick" else min(hi, lo + 5), 200):
